@@ -31,6 +31,7 @@ var newUClientConnection = func(
 	v protocol.Version,
 	uSpec *QUICSpec, // [UQUIC]
 ) *wrappedConn {
+	uSpec = uSpec.dialCopy() // [UQUIC] connection setup writes to the spec's extensions
 	s := &Conn{
 		conn:                conn,
 		config:              conf,
